@@ -1205,7 +1205,8 @@ inductive Case where
   | attrApi (x : ApiAttr)
   | nlriWire (f : Fam) (bs : Bytes)
   | nlriApi (x : ApiNlri)
-  | grpc (x : ApiNlri) (attrs : List ApiAttr) (vrps : List Vrp)   -- AddPath then ListPath through the real `GrpcService`
+  | grpc (x : ApiNlri) (attrs : List ApiAttr) (vrps : List Vrp) (vrf : Bool)
+      -- AddPath, ListPath, DeletePath(uuid), ListPath through the real `GrpcService`; `vrf`: into / from a VRF
   | explore (kind : String)        -- kinds outside the model: judged on the real observation only
   deriving Repr
 
@@ -1235,7 +1236,8 @@ inductive Obs where
   | decodePanic
   | nlris (l : List NlriObs)
   | addRefused                                  -- AddPath returned an error status
-  | listed (n : ApiNlri) (attrs : List ApiAttr) (val : Option RState) -- what ListPath shows for the one path added
+  | listed (n : ApiNlri) (attrs : List ApiAttr) (val : Option RState) (after : Nat)
+      -- what ListPath shows for the one path added; number of paths listed after DeletePath(uuid)
   | listPanic
   | exploreOk
   | exploreFail (why : String)
@@ -1290,14 +1292,21 @@ def run (fx : Fixes) : Case → Obs
       | .ok n => .nlris [nlriObs fx n]
       | .err => .fromErr
       | .panic => .fromPanic
-  | .grpc x attrs vrps =>
+  | .grpc x attrs vrps vrf =>
       match netFromApi fx x with
       | .ok n =>
           (match localPath fx attrs with
            | .ok stored =>
-               if stored.all (fun a => modelledCode a.code) then
-                 match listAttrs fx stored, rpkiShown vrps n stored with
-                 | .ok ys, .ok v => .listed (nlriToApi n) ys v
+               -- `vrf_export_path`: only plain IPv4 / IPv6 prefixes can be added to a VRF
+               if vrf && !(match n with | .v4 .. => true | .v6 .. => true | _ => false) then .addRefused
+               else if stored.all (fun a => modelledCode a.code) then
+                 -- `collect_vrf_paths`: the VPN envelope is removed from the NLRI and the EXTENDED_COMMUNITY
+                 -- attribute (which carries the export route targets) from the path; no RPKI state there
+                 let shown := if vrf then stored.filter (fun a => a.code ≠ 16) else stored
+                 let val := if vrf then .ok none else rpkiShown vrps n stored
+                 match listAttrs fx shown, val with
+                 -- `delete_path` removes what `add_path` inserted: nothing is listed afterwards
+                 | .ok ys, .ok v => .listed (nlriToApi n) ys v 0
                  | _, _ => .listPanic
                else .unmodelled
            | .err => .addRefused
@@ -1312,7 +1321,7 @@ def Case.inRange : Case → Bool
   | .attrApi x => x.inRange
   | .nlriWire .. => true
   | .nlriApi x => x.inRange
-  | .grpc x attrs vrps =>
+  | .grpc x attrs vrps _ =>
       x.inRange && attrs.all ApiAttr.inRange &&
         vrps.all fun v => u32 v.addr && v.len ≤ 32 && v.maxLen ≤ 255 && u32 v.asn
   | .explore _ => true
